@@ -202,6 +202,37 @@ def shard(ctx):
                     elif okb:
                         ctx.res.distinct.add(("structured-files", nr, nd, r["code"]))
                 check_events(ctx, r.get("events") or [], nr * nd, case, "structured")
+        # ---- structured junit / sarif: what a batch says about one data file == what the stand-alone run of that file says
+        a, b = orders[-1]
+        rargs = [x for i in ro for x in ("-r", "{S}/rules/r%d.guard" % i)]
+        dargs = [x for j in b for x in ("-d", "{S}/data/d%d.json" % j)]
+        for fmt in ("junit", "sarif"):
+            singles = {}
+            for j in do:
+                r1 = ctx.w.run({"k": "cli", "argv": ["validate"] + rargs + ["-d", "{S}/data/d%d.json" % j, "--structured", "-S", "none", "-o", fmt], "files": fl})
+                singles[j] = per_data_units(fmt, r1.get("out", "")) if r1.get("r") == "ok" else None
+            r = ctx.w.run({"k": "cli", "argv": ["validate"] + rargs + dargs + ["--structured", "-S", "none", "-o", fmt], "files": fl})
+            ctx.res.cases += 1
+            case = dict(base_case, mode="structured-" + fmt, order=[ro, b])
+            if r.get("r") != "ok" or any(v is None for v in singles.values()):
+                ctx.inconclusive("batch-error-or-crash")
+                continue
+            units = per_data_units(fmt, r["out"])
+            if units is None:
+                ctx.violation("structured-%s:malformed" % fmt, "batch %s output does not parse" % fmt, case)
+                continue
+            exp = {}
+            for j in do:
+                for name, u in (singles[j] or {}).items():
+                    exp[name] = u
+            if units != exp:
+                diff = sorted(k for k in set(units) | set(exp) if units.get(k) != exp.get(k))
+                ctx.violation("structured-%s:pair-differs" % fmt, "what the batch reports for %s differs from the stand-alone run of that data file: batch %s vs alone %s" % (
+                    diff[:2], [units.get(k) for k in diff[:1]], [exp.get(k) for k in diff[:1]]), case)
+            elif r["code"] != want_exit:
+                ctx.violation("structured-%s:exit" % fmt, "batch exit %s, pairs imply %s" % (r["code"], want_exit), case)
+            else:
+                ctx.res.distinct.add(("structured-" + fmt, nr, nd, r["code"], len(units)))
         # ---- directories with -a and -m (mtimes force an order different from the alphabetical one)
         mt = {}
         perm = do[:]
@@ -299,6 +330,29 @@ def entries(key):
     for e in d.get("not_compliant", []):
         out.append("F:" + json.dumps(e, sort_keys=True))
     return out
+
+
+def per_data_units(fmt, out):
+    """{data file name: everything the output says about that data file} for --structured junit / sarif"""
+    import xml.etree.ElementTree as ET
+    # each job has its own scratch directory (SARIF prints it without the leading slash, so the worker's /SCRATCH substitution misses it)
+    out = re.sub(r"/?(?:[\w./-]*target/scratch/w\d+/j\d+|SCRATCH)/", "S/", out)
+    try:
+        if fmt == "junit":
+            root = ET.fromstring(out)
+            units = {}
+            for ts in root.findall("./testsuite"):
+                cases = sorted((tc.get("name"), tc.get("status"), tuple(sorted((ch.tag, ch.get("message"), (ch.text or "").strip()) for ch in tc))) for tc in ts.findall("./testcase"))
+                units[ts.get("name")] = (ts.get("errors"), ts.get("failures"), tuple(cases))
+            return units
+        d = json.loads(out)
+        units = {}
+        for res in d["runs"][0]["results"]:
+            uri = res["locations"][0]["physicalLocation"]["artifactLocation"]["uri"]
+            units.setdefault(uri, []).append(json.dumps(res, sort_keys=True))
+        return {k: tuple(sorted(v)) for k, v in units.items()}
+    except (ET.ParseError, ValueError, KeyError, IndexError, TypeError):
+        return None
 
 
 def union_entries(keys):
